@@ -1,6 +1,6 @@
 (* Pinned statements for C14: compiled on every check run. A statement weakened in Props/ fails here. *)
 From Coq Require Import List Permutation String.
-From TS Require Import Model.Str Model.Outcome Model.Unicode Model.Syntax Model.Types Model.Parse Model.Reconcile Model.Collect Model.Lang.Common Model.MultiFile.
+From TS Require Import Model.Str Model.Outcome Model.Unicode Model.Syntax Model.Rename Model.Types Model.Parse Model.Reconcile Model.Collect Model.Lang.Common Model.MultiFile.
 From TS Require Model.Writer.
 From TS Require Import Spec.C14Spec.
 From TS Require Proofs.C14 Proofs.C14Front Proofs.C14Main Proofs.C14Imports Proofs.C14Witness.
@@ -111,6 +111,9 @@ Goal forall (uc : unicode), unicode_ok uc ->
         (scoped_pairs (crate_imports hc (multi_crates ho_crate arrivals) c pd)) = true.
 Proof. exact Props.C14.C14_imports_good. Qed.
 Print Assumptions Props.C14.C14_imports_good.
+Goal forall ws mapped s c d n, dom_C14 ws mapped s c d n = true -> known_C14 ws s c d n = None.
+Proof. exact Props.C14.C14_dom_excludes_known. Qed.
+Print Assumptions Props.C14.C14_dom_excludes_known.
 Goal exists arrivals pd v,
     parse_workspace uc_exec [] [] (fun l => l) Proofs.C14Witness.ws_plain = Ok arrivals /\
     In (lit "my_crate", pd) (multi_crates (fun l => l) arrivals) /\
@@ -155,3 +158,11 @@ Goal Proofs.C14Witness.w_run (fun l => l) (fun l => l) Proofs.C14Witness.ws_same
     Some ([(lit "c", lit "S")], [(lit "S", lit "a", false, Some "C14-same-name", false)]).
 Proof. exact Props.C14.C14_same_name_order_refuted. Qed.
 Print Assumptions Props.C14.C14_same_name_order_refuted.
+Goal exists verdicts,
+    Proofs.C14Witness.w_run (fun l => l) (fun l => l) Proofs.C14Witness.ws_glob_const (lit "my_crate") =
+      Some ([(lit "k", lit "K1"); (lit "k", lit "MyConst")], verdicts) /\
+    const_imports (Proofs.C14Main.c14_infos uc_exec [] Proofs.C14Witness.ws_glob_const) [(lit "k", lit "K1"); (lit "k", lit "MyConst")]
+      = [(lit "k", lit "MyConst")] /\
+    str_to_uppercase uc_exec (to_snake_case uc_exec (lit "MyConst")) = lit "MY_CONST".
+Proof. exact Props.C14.C14_glob_const_refuted. Qed.
+Print Assumptions Props.C14.C14_glob_const_refuted.
